@@ -157,6 +157,8 @@ def rules(ctx):
     cycles_follow_vehicles(ctx, sites)
     common.who_may_call(ctx, "R4.schedule-new-callers", S("new"), [SCHEDULE + "::"], "Schedule::new is called only inside impl Schedule", floor=12)
     fresh_ids(ctx, sites)
+    from .C15 import empty_cycle_bookkeeping
+    empty_cycle_bookkeeping(ctx)     # every vehicle sits in exactly one cycle: the free-list never hands out an occupied cycle
     # the producer-set and guard rules behind the tour / limit / membership invariants
     for part in (tour_producers, type_guards, growth_guards, limit_combination, depot_limits, formations_in_step):
         before = len(ctx.obligations)
